@@ -143,6 +143,25 @@ def cached_clause(model, rep, cg):
     for f in cached:
         rep.instance("S15", f.anchor)
     rep.floor("S15", 12, "(lru_cache functions)")
+    # a memoised result is handed to every later caller: it must be re-iterable.  A generator expression / map / zip / filter object (or a generator function) is
+    # consumed by the first task; every later task finds it empty ("not enough values to unpack"), whatever the scheduler
+    ONE_SHOT = {"map", "zip", "filter", "iter", "reversed", "enumerate"}
+    for f in cached:
+        bad = None
+        if f.is_generator:
+            bad = "the function is a generator"
+        for r in walk_no_nested(f.node):
+            if isinstance(r, ast.Return) and r.value is not None:
+                v = r.value
+                if isinstance(v, ast.Name):
+                    defs = [st.value for st in walk_no_nested(f.node) if isinstance(st, ast.Assign) and any(isinstance(t, ast.Name) and t.id == v.id for t in st.targets)]
+                    v = defs[-1] if len(defs) == 1 else v
+                if isinstance(v, ast.GeneratorExp):
+                    bad = f"`{norm_src(r)[:60]}` returns a generator expression"
+                elif isinstance(v, ast.Call) and isinstance(v.func, ast.Name) and v.func.id in ONE_SHOT:
+                    bad = f"`{norm_src(r)[:60]}` returns a one-shot `{v.func.id}` object"
+        rep.ob("S15", f.anchor, "a memoised function returns a re-iterable value (tuple / list / array), not a one-shot iterator", bad is None, bad or "", node=f.node,
+               fn=f, clause="4 cached", stmt=f"def {f.name} returns re-iterable")
     wrappers = {}
     for f in model.all_functions:
         rets = [r for r in walk_no_nested(f.node) if isinstance(r, ast.Return) and r.value is not None]
